@@ -447,26 +447,46 @@ func vfC06Build(t vfC06Fataler, dir string, tab []vfC06Entry, mode int) (d *DNSF
 	return d
 }
 
-// vfC06Lookup calls CheckHost under the watchdog and turns panics and
-// non-termination into failures.
+// vfC06Lookup looks one question up in one filter.
 func vfC06Lookup(t vfC06Fataler, d *DNSFilter, tab []vfC06Entry, host string, qtype uint16) (got vfC06Got) {
-	type ret struct {
-		res   Result
-		err   error
-		pan   any
-		stack []byte
-	}
-	ch := make(chan ret, 1)
+	return vfC06LookupAll(t, []*DNSFilter{d}, [][]vfC06Entry{tab}, host, qtype)[0]
+}
+
+// vfC06Ret is what one call of CheckHost gave.
+type vfC06Ret struct {
+	res   Result
+	err   error
+	pan   any
+	stack []byte
+}
+
+// vfC06LookupAll calls CheckHost(host, qtype) on every filter under the
+// watchdog (one goroutine for the batch) and turns panics and non-termination
+// into failures.
+func vfC06LookupAll(
+	t vfC06Fataler,
+	filters []*DNSFilter,
+	orders [][]vfC06Entry,
+	host string,
+	qtype uint16,
+) (gots []vfC06Got) {
+	ch := make(chan []vfC06Ret, 1)
+	var at atomic.Int32
 	setts := &Settings{ProtectionEnabled: true, FilteringEnabled: true}
 	go func() {
-		var r ret
-		defer func() {
-			if p := recover(); p != nil {
-				r.pan, r.stack = p, debug.Stack()
-			}
-			ch <- r
-		}()
-		r.res, r.err = d.CheckHost(host, qtype, setts)
+		rets := make([]vfC06Ret, len(filters))
+		defer func() { ch <- rets }()
+		for i, d := range filters {
+			at.Store(int32(i))
+			func() {
+				defer func() {
+					if p := recover(); p != nil {
+						rets[i].pan, rets[i].stack = p, debug.Stack()
+					}
+				}()
+				rets[i].res, rets[i].err = d.CheckHost(host, qtype, setts)
+			}()
+		}
 	}()
 
 	wd := vfC06Watchdog
@@ -476,13 +496,25 @@ func vfC06Lookup(t vfC06Fataler, d *DNSFilter, tab []vfC06Entry, host string, qt
 	timer := time.NewTimer(wd)
 	defer timer.Stop()
 
-	var r ret
+	var rets []vfC06Ret
 	select {
-	case r = <-ch:
+	case rets = <-ch:
 	case <-timer.C:
 		vfC06Hung.Store(true)
-		t.Fatalf("non-termination: CheckHost(%q, %d) did not return within %s; table %+v", host, qtype, wd, tab)
+		t.Fatalf("non-termination: CheckHost(%q, %d) did not return within %s; table %+v", host, qtype, wd,
+			orders[at.Load()])
 	}
+
+	gots = make([]vfC06Got, len(rets))
+	for i, r := range rets {
+		gots[i] = vfC06Observe(t, r, orders[i], host, qtype)
+	}
+
+	return gots
+}
+
+// vfC06Observe reduces a result to its observable part and checks its form.
+func vfC06Observe(t vfC06Fataler, r vfC06Ret, tab []vfC06Entry, host string, qtype uint16) (got vfC06Got) {
 	if r.pan != nil {
 		t.Fatalf("panic in CheckHost(%q, %d): %v\ntable %+v\n%s", host, qtype, r.pan, tab, r.stack)
 	}
@@ -545,10 +577,7 @@ func vfC06CheckOne(
 		}
 	}
 
-	gots := make([]vfC06Got, len(filters))
-	for i, d := range filters {
-		gots[i] = vfC06Lookup(t, d, orders[i], host, qtype)
-	}
+	gots := vfC06LookupAll(t, filters, orders, host, qtype)
 
 	if count {
 		vfC06Account(m, tab, host, qtype, gots[0])
@@ -763,8 +792,8 @@ func TestVFC06Cycles(t *testing.T) {
 		for _, host := range append(append([]string{}, names...), tail...) {
 			qtype := vfC06DrawQType(t, "qtype_"+host)
 			vfC06CheckOne(t, tab, filters, orders, host, qtype, true)
-			for i, d := range filters {
-				if got := vfC06Lookup(t, d, orders[i], host, qtype); len(got.IPs) != 0 {
+			for i, got := range vfC06LookupAll(t, filters, orders, host, qtype) {
+				if len(got.IPs) != 0 {
 					t.Fatalf("lookup of %q in a pure CNAME cycle yields addresses %v; table %+v", host, got.IPs, orders[i])
 				}
 			}
